@@ -212,6 +212,23 @@ def _tailify(stmts, result):
                 handlers.append(ast.ExceptHandler(type=h.type, name=h.name, body=hb))
             out.append(ast.Try(body=body_t, handlers=handlers, orelse=[], finalbody=[]))
             return out
+        if isinstance(st, ast.Try) and _has_return([st]) and not st.orelse and not st.finalbody and not _has_return(st.body) \
+                and all(_terminates(h.body) for h in st.handlers):
+            # every handler leaves the function: what follows the try runs exactly when the protected block completed,
+            # which is what an ``else`` clause says (and like the original position it is outside the protection)
+            handlers = []
+            for h in st.handlers:
+                hb = h.body
+                if _has_return(hb):
+                    hb = _tailify(hb, result)
+                    if hb is None:
+                        return None
+                handlers.append(ast.ExceptHandler(type=h.type, name=h.name, body=hb))
+            rest_t = _tailify(stmts[i + 1:], result)
+            if rest_t is None:
+                return None
+            out.append(ast.Try(body=list(st.body), handlers=handlers, orelse=rest_t, finalbody=[]))
+            return out
         if _has_return([st]):
             return None
         out.append(st)
